@@ -92,65 +92,97 @@ def buildTimeset (hs ms ss : List Int) : Py.R (List HMS) := do
 
 def validBysetpos (l : List Int) : Bool := l.all (fun p => !(p == 0 || !(-366 ≤ p && p ≤ 366)))
 
+/-- lines 491-503: every position must be in −366..−1 or 1..366 -/
+def normBysetpos (a : Args) : Py.R (Option (List Int)) :=
+  match a.bysetpos with
+  | none => .ok none
+  | some l => if validBysetpos l then .ok (some l) else .error .ValueError
+
+/-- line 508: none of byweekno / byyearday / bymonthday / byweekday / byeaster was given -/
+def noDayParts (a : Args) : Bool :=
+  a.byweekno.isNone && a.byyearday.isNone && a.bymonthday.isNone && a.byweekday.isNone && a.byeaster.isNone
+
+/-- `self._bymonth` (with the YEARLY default `dtstart.month`) -/
+def bymonthOf (a : Args) : Option (List Int) :=
+  (if noDayParts a && a.freq == 0 && a.bymonth.isNone then some [a.dtstart.m] else a.bymonth).map sortedSet
+
+/-- the `bymonthday` argument after the YEARLY / MONTHLY default `dtstart.day` -/
+def monthdayArg (a : Args) : Option (List Int) :=
+  if noDayParts a && (a.freq == 0 || a.freq == 1) then some [a.dtstart.d] else a.bymonthday
+
+/-- `self._bymonthday`: the positive members -/
+def bymonthdayOf (a : Args) : List Int :=
+  match monthdayArg a with
+  | none => []
+  | some l => sortBy ltInt ((dedup [] l).filter (· > 0))
+
+/-- `self._bynmonthday`: the negative members -/
+def bynmonthdayOf (a : Args) : List Int :=
+  match monthdayArg a with
+  | none => []
+  | some l => sortBy ltInt ((dedup [] l).filter (· < 0))
+
+/-- the `byweekday` argument after the WEEKLY default `dtstart.weekday()` -/
+def weekdayArg (a : Args) : Option (List (Int × Int)) :=
+  if noDayParts a && a.freq == 2 then some [(a.dtstart.weekday, 0)] else a.byweekday
+
+/-- plain members: ints, `MO`, and every `MO(n)` when `freq > MONTHLY` -/
+def plainWeekdays (a : Args) (l : List (Int × Int)) : List Int :=
+  dedup [] ((l.filter (fun w => w.2 == 0 || a.freq > 1)).map (·.1))
+
+def nthWeekdays (a : Args) (l : List (Int × Int)) : List (Int × Int) :=
+  dedup [] (l.filter (fun w => !(w.2 == 0 || a.freq > 1)))
+
+/-- `self._byweekday` -/
+def byweekdayOf (a : Args) : Option (List Int) :=
+  match weekdayArg a with
+  | none => none
+  | some l => if (plainWeekdays a l).isEmpty then none else some (sortBy ltInt (plainWeekdays a l))
+
+/-- `self._bynweekday` -/
+def bynweekdayOf (a : Args) : Option (List (Int × Int)) :=
+  match weekdayArg a with
+  | none => none
+  | some l =>
+    if (plainWeekdays a l).isEmpty then some (sortBy ltPair (nthWeekdays a l))
+    else if (nthWeekdays a l).isEmpty then none
+    else some (sortBy ltPair (nthWeekdays a l))
+
+/-- byhour / byminute / bysecond (lines 629-689): default from dtstart below the unit's own
+    frequency, reachability filter at the unit's own frequency, plain sorted set otherwise -/
+def normUnit (freq lvl interval start : Int) (arg : Option (List Int)) (base : Int) : Py.R (Option (List Int)) :=
+  match arg with
+  | none => .ok (if freq < lvl then some [start] else none)
+  | some l =>
+    if freq == lvl then
+      match constructByset interval start l base with
+      | .ok c => .ok (some (sortBy ltInt c))
+      | .error e => .error e
+    else .ok (some (sortedSet l))
+
+/-- `self._timeset` (lines 691-702): `None` for the sub-daily frequencies -/
+def timesetOf (a : Args) (byhour byminute bysecond : Option (List Int)) : Py.R (Option (List HMS)) :=
+  if a.freq ≥ 4 then .ok none else
+    match buildTimeset (byhour.getD []) (byminute.getD []) (bysecond.getD []) with
+    | .ok t => .ok (some t)
+    | .error e => .error e
+
 /-- `rrule.__init__` (lines 432-702). -/
 def construct (a : Args) : Py.R Rule := do
-  let ds : DT := { a.dtstart with us := 0 }
-  let freq := a.freq
-  let wkst := a.wkst.getD 0                       -- calendar.firstweekday() is pinned to 0
-  -- bysetpos
-  let bysetpos ← match a.bysetpos with
-    | none => pure none
-    | some l => if validBysetpos l then pure (some l) else throw PyErr.ValueError
-  -- dtstart-derived defaults
-  let noDay := a.byweekno.isNone && a.byyearday.isNone && a.bymonthday.isNone &&
-               a.byweekday.isNone && a.byeaster.isNone
-  let bymonth0 := if noDay && freq == 0 && a.bymonth.isNone then some [ds.m] else a.bymonth
-  let bymonthday0 := if noDay && (freq == 0 || freq == 1) then some [ds.d] else a.bymonthday
-  let byweekday0 : Option (List (Int × Int)) :=
-    if noDay && freq == 2 then some [(ds.weekday, 0)] else a.byweekday
-  let bymonth := bymonth0.map sortedSet
-  let byyearday := a.byyearday.map sortedSet
-  let byeaster := a.byeaster.map (sortBy ltInt)          -- tuple(sorted(byeaster)): duplicates kept
-  let (bymonthday, bynmonthday) := match bymonthday0 with
-    | none => (([] : List Int), ([] : List Int))
-    | some l => let s := dedup [] l
-                (sortBy ltInt (s.filter (· > 0)), sortBy ltInt (s.filter (· < 0)))
-  let byweekno := a.byweekno.map sortedSet
-  -- byweekday / bynweekday
-  let (byweekday, bynweekday) : Option (List Int) × Option (List (Int × Int)) :=
-    match byweekday0 with
-    | none => (none, none)
-    | some l =>
-      let plain := dedup [] ((l.filter (fun w => w.2 == 0 || freq > 1)).map (·.1))
-      let nth := dedup [] (l.filter (fun w => !(w.2 == 0 || freq > 1)))
-      if plain.isEmpty then (none, some (sortBy ltPair nth))
-      else if nth.isEmpty then (some (sortBy ltInt plain), none)
-      else (some (sortBy ltInt plain), some (sortBy ltPair nth))
-  -- byhour / byminute / bysecond
-  let byhour ← match a.byhour with
-    | none => pure (if freq < 4 then some [ds.hh] else none)
-    | some l => if freq == 4 then do
-                  let c ← constructByset a.interval ds.hh l 24
-                  pure (some (sortBy ltInt c))
-                else pure (some (sortedSet l))
-  let byminute ← match a.byminute with
-    | none => pure (if freq < 5 then some [ds.mm] else none)
-    | some l => if freq == 5 then do
-                  let c ← constructByset a.interval ds.mm l 60
-                  pure (some (sortBy ltInt c))
-                else pure (some (sortedSet l))
-  let bysecond ← match a.bysecond with
-    | none => pure (if freq < 6 then some [ds.ss] else none)
-    | some l => if freq == 6 then do
-                  let c ← constructByset a.interval ds.ss l 60
-                  pure (some (sortBy ltInt c))
-                else pure (some (sortedSet l))
-  let timeset ← if freq ≥ 4 then pure none else do
-      let t ← buildTimeset (byhour.getD []) (byminute.getD []) (bysecond.getD [])
-      pure (some t)
-  pure { freq, interval := a.interval, wkst, dtstart := ds, tz := a.tz, count := a.count, untilDT := a.untilDT,
-         bysetpos, bymonth, bymonthday, bynmonthday, byyearday, byeaster, byweekno,
-         byweekday, bynweekday, byhour, byminute, bysecond, timeset }
+  let bysetpos ← normBysetpos a
+  let byhour ← normUnit a.freq 4 a.interval a.dtstart.hh a.byhour 24
+  let byminute ← normUnit a.freq 5 a.interval a.dtstart.mm a.byminute 60
+  let bysecond ← normUnit a.freq 6 a.interval a.dtstart.ss a.bysecond 60
+  let timeset ← timesetOf a byhour byminute bysecond
+  pure { freq := a.freq, interval := a.interval,
+         wkst := a.wkst.getD 0,                     -- calendar.firstweekday() is pinned to 0
+         dtstart := { a.dtstart with us := 0 }, tz := a.tz, count := a.count, untilDT := a.untilDT,
+         bysetpos, bymonth := bymonthOf a, bymonthday := bymonthdayOf a, bynmonthday := bynmonthdayOf a,
+         byyearday := a.byyearday.map sortedSet,
+         byeaster := a.byeaster.map (sortBy ltInt),     -- tuple(sorted(byeaster)): duplicates kept
+         byweekno := a.byweekno.map sortedSet,
+         byweekday := byweekdayOf a, bynweekday := bynweekdayOf a,
+         byhour, byminute, bysecond, timeset }
 
 /-! ### `_iterinfo` -/
 
